@@ -44,8 +44,11 @@ func GetShortFieldID(
 	// usually want most of them.
 
 	key := keys.NewFieldIDPrefix(collectionShortID)
+	// The prefix must end with the separator, otherwise the fields of collection 1 would
+	// also include the fields of collections 10, 11, ...
+	prefix := append(key.Bytes(), '/')
 	txn := datastore.CtxMustGetTxn(ctx)
-	iter, err := txn.Systemstore().Iterator(ctx, corekv.IterOptions{Prefix: key.Bytes()})
+	iter, err := txn.Systemstore().Iterator(ctx, corekv.IterOptions{Prefix: prefix})
 	if err != nil {
 		return 0, err
 	}
